@@ -12,12 +12,16 @@ from .common import Check, enc
 warnings.filterwarnings("ignore")
 
 POOL = ["", "a", "b", "ab", "ab\n", "ac", "abc", "int x;\n", "int x;\n ", "int y;\n"]
+# large files sharing a long common beginning (a licence banner / generated table): a digest of
+# the leading block only cannot separate them, so several classes land in one bucket
+_BANNER = "/* generated table - do not edit */\n" * 130          # 4810 bytes > 4096
+BIG = [_BANNER + "int t[] = {1};\n", _BANNER + "int t[] = {2};\n", _BANNER + "int t[] = {1};\n ", _BANNER]
 EXT = [".c", ".h", ".cpp", ".f90"]
 
 
 class C16(Check):
     prop_id = "C16"
-    rule = ("random code bases: 0-12 files with contents from a pool of 10 byte strings (empty, prefix pairs, "
+    rule = ("random code bases: 0-12 files with contents from a pool of 10 byte strings (empty, prefix pairs, large files sharing a 4.8 kB beginning with classes interleaved in path order, "
             "last-byte differences), symlinked twins, twins excluded by pattern, nested directories; a case is "
             "non-trivial if at least one duplicate group exists AND at least one file is unique or a link/excluded twin is present")
     assumptions = ["all regular files of a case carry the same mtime (worst case for stat-based shortcuts)",
@@ -46,6 +50,19 @@ class C16(Check):
                     continue
                 files.append([name, self.rng.choice(pool), "file"])
             out.append(files)
+        # one bucket, several classes, classes INTERLEAVED in path order (v1 = X, v2 = Y, v3 = X, ...)
+        for _ in range(25 if self.tier == "quick" else 400):
+            k = self.rng.randint(3, 7)
+            classes = self.rng.sample(range(len(BIG)), self.rng.randint(2, 3))
+            files = []
+            for i in range(k):
+                d = self.rng.choice(["", f"v{i}/", "sub/"])
+                files.append([f"{d}t{i}.c" if d != f"v{i}/" else f"{d}table.c", BIG[self.rng.choice(classes)], "file"])
+            if self.rng.random() < 0.4:
+                files.append(["small.c", self.rng.choice(POOL), "file"])
+            out.append(files)
+        out.append([["v1/table.c", BIG[0], "file"], ["v2/table.c", BIG[1], "file"], ["v3/table.c", BIG[0], "file"],
+                    ["util/a.h", "int u;\n", "file"], ["util/b.h", "int u;\n", "file"]])
         # exhaustive small block: every assignment of 3 contents to <= 4 plain files
         lim = 4 if self.tier == "quick" else 6
         import itertools
